@@ -184,8 +184,7 @@ class Run:
             meas = op[3]
             a = [meas] if meas is not None else []
             r = self.unchanged(lambda: db.remove(qast.build(q), *a), "remove(%s) matching nothing" % qast.show(q), expect_oserror=not (can_read and can_write))
-            if can_read and can_write and r != 0:
-                self.fail("noop-count", "a removal that matches nothing returned %r" % (r,))
+            # (the returned count is C02's subject; here only bytes and leftovers matter)
             if m.points:
                 self.flags.add("noop_on_nonempty")
         elif k == "noop_update":
@@ -198,8 +197,7 @@ class Run:
                 "empty_tags_fn": {"tags": lockstep.u_tags_empty}, "never_query": {"tags": {"a": "upd"}},
             }[kind]
             r = self.unchanged(lambda: db.update(qast.build(q), **kw), "update(%s, %s) changing nothing" % (qast.show(q), kind), expect_oserror=not (can_read and can_write))
-            if can_read and can_write and r != 0:
-                self.fail("noop-count", "an update that changes nothing returned %r" % (r,))
+            # (the returned count is C03's subject; here only bytes and leftovers matter)
             if m.points:
                 self.flags.add("noop_on_nonempty")
         elif k == "insert":
